@@ -335,41 +335,74 @@ const MAX_NESTING: usize = 64;
 /// operator, and the tree is cloned, compared, printed and dropped recursively
 const MAX_OPERATORS: usize = 1024;
 
+/// Precedence levels of infix operators: the parser climbs them one call at a time
+const PRECEDENCE_LEVELS: usize = 11;
+
 /// Whether the expressions of a line are shallow enough for the recursive parser and for the recursive walks over the
 /// trees it builds: nesting of parentheses and prefix operators, and operators chained in one operand.
+/// What counts is how many calls of the parser are open at once. A parenthesis keeps open, until it is closed, the
+/// prefix operators in front of it and the precedence levels climbed on its level so far (at most one per operator seen
+/// there); the current level adds its own run of prefix operators and its own climb.
 /// Only the part in front of the trailing comment counts: a rule of dashes in a comment nests nothing.
 fn nesting_is_parsable(line: &str) -> bool {
     let code = document::code_part(line).unwrap_or(vec![line]);
-    let mut depth: usize = 0;
+    // what each open parenthesis keeps open (itself included), and the operators seen on its level before it
+    let mut open: Vec<(usize, usize)> = vec![];
+    let mut open_calls: usize = 0;
     let mut prefix_run: usize = 0;
+    let mut level_operators: usize = 0;
     let mut operators: usize = 0;
+    // whether the last thing seen was an operand (or its end): a `-` behind it is the infix one
+    let mut after_operand = false;
     for c in code.iter().flat_map(|piece| piece.chars()) {
         match c {
+            // layout changes nothing
+            ' ' | '\t' => {}
             '(' => {
-                depth += 1;
+                let calls = prefix_run
+                    .saturating_add(level_operators.min(PRECEDENCE_LEVELS))
+                    .saturating_add(1);
+                open.push((calls, level_operators));
+                open_calls = open_calls.saturating_add(calls);
                 prefix_run = 0;
+                level_operators = 0;
+                after_operand = false;
             }
             ')' => {
-                if depth > 0 {
-                    depth -= 1;
+                if let Some((calls, seen)) = open.pop() {
+                    open_calls = open_calls.saturating_sub(calls);
+                    level_operators = seen;
                 }
                 prefix_run = 0;
+                after_operand = true;
             }
-            '-' | '~' | '!' => {
+            '-' | '~' | '!' if !after_operand => {
                 prefix_run += 1;
                 operators += 1;
             }
-            '+' | '*' | '/' | '%' | '&' | '|' | '^' | '<' | '>' | '=' => {
+            '-' | '~' | '!' | '+' | '*' | '/' | '%' | '&' | '|' | '^' | '<' | '>' | '=' => {
                 prefix_run = 0;
+                level_operators = level_operators.saturating_add(1);
                 operators += 1;
+                after_operand = false;
             }
             ',' => {
                 prefix_run = 0;
+                if open.is_empty() {
+                    level_operators = 0;
+                }
                 operators = 0;
+                after_operand = false;
             }
-            _ => prefix_run = 0,
+            _ => {
+                prefix_run = 0;
+                after_operand = true;
+            }
         }
-        if depth + prefix_run > MAX_NESTING || operators > MAX_OPERATORS {
+        let calls = open_calls
+            .saturating_add(prefix_run)
+            .saturating_add(level_operators.min(PRECEDENCE_LEVELS));
+        if calls > MAX_NESTING || operators > MAX_OPERATORS {
             return false;
         }
     }
